@@ -30,6 +30,16 @@ FEATURES = ["safe_stack", "safe_active_fiber", "safe_class_lookup", "safe_vm_opc
 PROFILES = ["expr", "control", "closures", "classes", "exceptions", "fibers", "iteration", "data", "alloc", "typed", "typed-try"]
 
 
+def stack_fill_program(per_level, innermost, depth=62):
+    """Fills the value stack of the main fiber almost to its end: `depth`+1 nested calls, each holding `per_level` pending operands
+    (`1 + (1 + ( … f(n - 1))))`), the innermost `innermost` ones.  With 262 / 11 the 16384 slots are used exactly (the last free slot is
+    written); every build must run it the same way."""
+    def nest(k, core):
+        return "1 + (" * k + core + ")" * k
+    return "fn f(n) {\n  if n == 0 {\n    return %s;\n  }\n  return %s;\n}\nprint(f(%d));\nprint(\"done\");\n" % (
+        nest(innermost, "0"), nest(per_level, "f(n - 1)"), depth)
+
+
 def configs(thorough):
     cfgs = [("dev", ()), ("release", ()), ("release", tuple(FEATURES))]
     if thorough:
@@ -52,6 +62,7 @@ def correspondence(ctx, model_ok=True):
     extra += [("c07:" + n, s_, {}) for n, s_, _ in c07.SCENARIOS] + [("c08:" + n, s_, {}) for n, s_, _, _ in c08.SCENARIOS]
     extra += [("c09:" + n, s_, {}) for n, s_, _, _ in c09.SCENARIOS] + [("c18:" + n, s_, {}) for n, s_, _ in c18.SCENARIOS]
     extra += probes_gc.all_probes()
+    extra += [("stackfill:262:%d" % k, stack_fill_program(262, k), {}) for k in (9, 10, 11)]
     asrc, amods = c08.aftermath_program()
     extra += [("c08:aftermath", asrc, amods)]
     extra += [("c08:aftermath:%d" % k, "%s try { %s } catch e { print(type(e)); } %s\n" % t, amods) for k, t in enumerate(c08.AFTERMATH)]
